@@ -243,8 +243,8 @@ func (s *State) IsVrfKeyInUse(common.Blake2b256) (bool, common.PoolKeyHash, erro
 func (s *State) CalculateRewards(common.AdaPots, common.RewardSnapshot, common.RewardParameters) (*common.RewardCalculationResult, error) {
 	return nil, errors.New("not modelled")
 }
-func (s *State) GetAdaPots() common.AdaPots           { return common.AdaPots{} }
-func (s *State) UpdateAdaPots(common.AdaPots) error   { return nil }
+func (s *State) GetAdaPots() common.AdaPots         { return common.AdaPots{} }
+func (s *State) UpdateAdaPots(common.AdaPots) error { return nil }
 func (s *State) GetRewardSnapshot(uint64) (common.RewardSnapshot, error) {
 	return common.RewardSnapshot{}, errors.New("not modelled")
 }
@@ -263,7 +263,7 @@ func (s *State) CostModels() map[common.PlutusLanguage]common.CostModel {
 	return map[common.PlutusLanguage]common.CostModel{}
 }
 func (s *State) CommitteeMember(common.Blake2b224) (*common.CommitteeMember, error) { return nil, nil }
-func (s *State) CommitteeMembers() ([]common.CommitteeMember, error)               { return nil, nil }
+func (s *State) CommitteeMembers() ([]common.CommitteeMember, error)                { return nil, nil }
 func (s *State) DRepRegistration(c common.Blake2b224) (*common.DRepRegistration, error) {
 	if d, ok := s.dreps[[28]byte(c)]; ok {
 		return &common.DRepRegistration{Credential: c, Deposit: d}, nil
@@ -271,8 +271,8 @@ func (s *State) DRepRegistration(c common.Blake2b224) (*common.DRepRegistration,
 	return nil, nil
 }
 func (s *State) DRepRegistrations() ([]common.DRepRegistration, error) { return nil, nil }
-func (s *State) Constitution() (*common.Constitution, error)          { return nil, nil }
-func (s *State) TreasuryValue() (uint64, error)                       { return 0, nil }
+func (s *State) Constitution() (*common.Constitution, error)           { return nil, nil }
+func (s *State) TreasuryValue() (uint64, error)                        { return 0, nil }
 func (s *State) GovActionById(common.GovActionId) (*common.GovActionState, error) {
 	return nil, nil
 }
